@@ -760,6 +760,19 @@ VAR_CALLS = {"varAnd": (["refs", "toolbox", "T", "T"], "C02_gen.gen_varAnd ltb l
 class LoopTr(FnTr):
     top = {}
 
+    def __init__(self, *a, **k):
+        FnTr.__init__(self, *a, **k)
+        # lazy results of toolbox.map(toolbox.evaluate, l) bound in THIS statement list and not consumed yet: an
+        # iterator is consumed once, so exactly one `for .. in zip(.., fitnesses)` of the same block may follow
+        self.lazy_ok = set()
+
+    def bind_local(self, node, name, t, fresh=False):
+        FnTr.bind_local(self, node, name, t, fresh)
+        if t == "lazyfits":
+            self.lazy_ok.add(name)
+        else:
+            self.lazy_ok.discard(name)
+
     def static_truth(self, test):
         """conditions decided by the signature table: None when the test is an ordinary expression"""
         if isinstance(test, ast.Name):
@@ -891,6 +904,9 @@ class LoopTr(FnTr):
             a, b = it.args[0].id, it.args[1].id
             if x == y or a in body_assigned or b in body_assigned:
                 refuse(s, "the loop changes a list it iterates over")
+            if b not in self.lazy_ok:
+                refuse(s, "the lazy sequence %s may already have been consumed (it is not bound in this block, or is used twice)" % b)
+            self.lazy_ok.discard(b)
             src = self.temp()
             # zip pulls an individual, then the next fitness: toolbox.evaluate is called at that moment (map is lazy)
             return "(zip %s %s)" % (cn(a), cn(b)), "'(%s, %s)" % (cn(x), src), {x: "ref", y: "fitval"}, ("lazy", y, src)
